@@ -104,6 +104,9 @@ impl Bed {
                 let (n3, c3) = (n2.clone(), c2.clone());
                 tokio::spawn(async move {
                     let _ = s.set_nodelay(true);
+                    // every harness socket is closed with RST (linger 0) *after* the other side is done
+                    // with it, so that the library's ephemeral ports do not pile up in TIME_WAIT
+                    let _ = s.set_linger(Some(Duration::from_secs(0)));
                     let Ok(len) = s.read_u16().await else { return };
                     let mut req = vec![0u8; len as usize];
                     if s.read_exact(&mut req).await.is_err() || req.is_empty() {
@@ -138,6 +141,9 @@ impl Bed {
                                 None => resp.push(1),
                             }
                             let _ = s.write_all(&resp).await;
+                            // wait for the client's FIN before resetting, so it has read the answer
+                            let mut b = [0u8; 1];
+                            let _ = s.read(&mut b).await;
                         }
                         _ => {}
                     }
@@ -165,9 +171,18 @@ impl PeerListener {
     pub async fn accept(&self) -> Result<PeerConn, String> {
         let (s, addr) = self.l.accept().await.map_err(|e| format!("accept: {e}"))?;
         let _ = s.set_nodelay(true);
+        let _ = s.set_linger(Some(Duration::from_secs(0)));
         let c = PeerConn { s, my_port: self.port, their_port: addr.port(), deframer: proto::Deframer::default(), eof: false };
         c.quickack();
         Ok(c)
+    }
+}
+
+/// Graceful close (FIN) instead of the default reset-on-drop.
+impl PeerConn {
+    pub fn close_gracefully(self) {
+        let _ = self.s.set_linger(None);
+        drop(self);
     }
 }
 
